@@ -163,7 +163,7 @@ theorem putchar_ok (s : Sline) (h : SlineOK s) (c : Byte) : StepOK s (.putchar c
   unfold Zip.putchar
   rw [hzl]
   by_cases hfull : s.cap - 1 ≤ s.len
-  · have e : s.putchar c = (s, 0) := by unfold Sline.putchar; rw [if_pos ⟨by omega, hfull⟩]
+  · have e : s.putchar c = (s, 0) := by unfold Sline.putchar; rw [if_pos (by omega)]
     rw [e, if_neg (by omega)]
     exact ⟨⟨hb, hc, hr, hf⟩, rfl, rfl, rfl⟩
   · rw [if_pos (by omega)]
@@ -241,7 +241,7 @@ theorem newdata_ok (s : Sline) (h : SlineOK s) (d : List Byte) : StepOK s (.newd
       unfold Sline.newdata
       simp only [hk1, hmid, ne_eq, not_true_eq_false, if_false]
       rw [mcpy_ok _ _ _ _ _ (by omega) (by omega)]
-      simp [hf]; omega
+      simp [hf]
     rw [e]
     refine ⟨⟨?_, ?_, ?_, ?_⟩, rfl, ?_, rfl⟩
     · simp only; rw [length_splice _ _ _ (by rw [hwd]; omega)]; exact hb
@@ -438,7 +438,7 @@ theorem getline_ok (s : Sline) (h : SlineOK s) : StepOK s .getline := by
   show SlineOK s.getline ∧ s.getline.cap = s.cap ∧ s.getline.toZip = s.toZip ∧ 0 = 0
   have e : s.getline = { s with buf := splice s.buf s.len [0] } := by
     unfold Sline.getline
-    rw [wr_ok _ _ _ (by omega)]
+    rw [if_neg (by omega), wr_ok _ _ _ (by omega)]
     simp [hf]
   rw [e]
   refine ⟨⟨?_, hc, hr, hf⟩, rfl, ?_, rfl⟩
